@@ -11,11 +11,15 @@ pub mod sym;
 #[cfg(kani)]
 pub mod stubs;
 
+pub mod h;
+
+pub mod c02;
 pub mod c15;
 
 /// every harness, for the native replayer
 pub fn all() -> Vec<(&'static str, fn())> {
     let mut v = Vec::new();
+    v.extend_from_slice(c02::LIST);
     v.extend_from_slice(c15::LIST);
     v
 }
